@@ -19,7 +19,7 @@ from fractions import Fraction
 
 import numpy as np
 
-from common import Ctx, frac, run_driver
+from common import REPO, Ctx, frac, run_driver
 from translate import neb as neb_tr
 
 PROP = "C09"
@@ -962,10 +962,75 @@ def _run_pred(ctx, fn, args, site, replay):
     return fails
 
 
+def molecular_pair(name: str, moves: list):
+    """(labels, first end point, second end point): a molecule of the test data and the same molecule after a few
+    bond-length / bond-angle / dihedral changes of its own move routines"""
+    import ase.io
+    from topsearch.data.coordinates import MolecularCoordinates
+    a = ase.io.read(str(REPO / "tests" / "test_data" / name))
+    lab, pos = list(a.get_chemical_symbols()), a.get_positions().flatten()
+    c2 = MolecularCoordinates(lab, pos.copy())
+    bonds, _, angles, _, dihs, _ = c2.get_bond_angle_info()
+    for kind, idx, amount in moves:
+        if kind == "bond" and bonds:
+            c2.change_bond_lengths([bonds[idx % len(bonds)]], [amount], c2.reference_bonds)
+        elif kind == "angle" and angles:
+            c2.change_bond_angles([angles[idx % len(angles)]], [amount], c2.reference_bonds)
+        elif kind == "dihedral" and dihs:
+            c2.change_dihedral_angles([dihs[idx % len(dihs)]], [amount], c2.reference_bonds)
+    return lab, pos, c2.position.copy()
+
+
+def pred_molecular_interp(name: str, moves: list, density: float, mx: int, attempts: list) -> list[tuple[str, str]]:
+    """interpolation in bond lengths / angles / dihedrals (molecules): image count bounds, the band begins at the
+    first minimum, the caller's first end point is left where it was, and the same call gives the same band
+    again — over a sequence of calls on one band object and one coordinates object"""
+    from topsearch.data.coordinates import MolecularCoordinates
+    out = []
+    lab, pos, end2 = molecular_pair(name, moves)
+    neb = new_neb(TablePot(), 10.0, density, mx)
+    c = MolecularCoordinates(lab, pos.copy())
+    perm = np.arange(len(lab))
+    first = {}
+    for n_call, att in enumerate(attempts):
+        before = c.position.copy()
+        band = np.array(neb.initial_interpolation(c, end2.copy(), att, perm), dtype=float)
+        n = neb.n_images
+        where = f"call {n_call + 1} (attempts={att}) on {name} after {moves}"
+        if not (10 <= n <= mx) or len(band) != n:
+            out.append(("image-count:dihedral_interpolation", f"{where}: {n} images (rows {len(band)}) with max_images={mx}"))
+        if np.abs(band[0] - pos).max() > 1e-12:
+            out.append(("first-image:dihedral_interpolation", f"{where}: the band begins {np.abs(band[0] - pos).max():.3g} "
+                        "away from the first minimum"))
+        if np.abs(c.position - before).max() > 1e-12:
+            out.append(("no-residue:coords:dihedral_interpolation", f"{where}: the call displaced the caller's first end "
+                        f"point by {np.abs(c.position - before).max():.3g}"))
+            c.position = pos.copy()
+        if neb.image_density != density:
+            out.append(("no-residue:image_density", f"{where}: image_density is {neb.image_density} afterwards (configured {density})"))
+        if att in first and (first[att].shape != band.shape or np.abs(first[att] - band).max() > 1e-9):
+            out.append(("no-residue:band:dihedral_interpolation", f"{where}: the same pair at the same retry count gave a "
+                        "different band than before"))
+        first.setdefault(att, band)
+    return out
+
+
 def predicates(ctx: Ctx) -> None:
     rng = ctx.rng
     np.random.seed(ctx.seed + 1)
     deep = 4 if getattr(ctx, "deep_search", False) else 1
+    # molecules: corpus (the repaired displacement of the first end point: one stretched bond), then random pairs
+    mol_cases = [("ethanol.xyz", [("bond", 0, 0.3)], 8.0, 20, [0, 0]),
+                 ("ethanol.xyz", [("dihedral", 0, 40.0), ("bond", 1, -0.1)], 8.0, 30, [0, 1, 0])]
+    for _ in range(ctx.scale(4, 20) * deep):
+        moves = [(rng.choice(["bond", "angle", "dihedral"]), rng.randrange(8),
+                  rng.uniform(-0.15, 0.3)) for _ in range(rng.randrange(1, 4))]
+        moves = [(k, i, a if k == "bond" else a * 100.0) for k, i, a in moves]
+        mol_cases.append((rng.choice(["ethanol.xyz", "hexane.xyz", "ethanol2.xyz"]), moves, rng.choice([4.0, 8.0, 20.0]),
+                          rng.choice([12, 20, 30]), [rng.choice([0, 0, 1, 2]) for _ in range(rng.randrange(2, 5))]))
+    for case in mol_cases:
+        ctx.stats.case({"stream": "predicate-molecular-interp", "molecule": case[0], "moves": len(case[1])}, True)
+        _run_pred(ctx, pred_molecular_interp, case, "dihedral_interpolation", {"pred": "molinterp", "case": list(case)})
     # corpus first: the §6 witness and boundary inputs
     corpus_g = [
         (4, [[0.0], [1.0], [1.5], [3.0]], [0.0] * 4, [[0.0]] * 4, [1.0] * 3),
@@ -1052,6 +1117,10 @@ def replay(ctx: Ctx, data: dict) -> bool:
         k, density, mx, box, calls = case
         fails = guarded(pred_interp, (k, density, mx, [tuple(b) for b in box], [tuple(c) for c in calls]),
                         "initial_interpolation")
+    elif kind == "molinterp":
+        name, moves, density, mx, attempts = case
+        fails = guarded(pred_molecular_interp, (name, [tuple(m) for m in moves], density, mx, list(attempts)),
+                        "dihedral_interpolation")
     elif kind == "runs":
         case["calls"] = [tuple(c) for c in case["calls"]]
         fails = guarded(pred_runs, (case,), "run")
